@@ -111,6 +111,26 @@ def gen_c08(tier, seed):
         act = (at, r.choice("WX"), r.randrange(8)) if at else None
         cases.append(build_c08_case("c08-%d" % idx, kinds, r.choice(TIMEOUTS), act, r, 1))
         idx += 1
+    # a failed start with a deadline must not leave that deadline on a handle that is started again
+    for stale in (30, 60, 150):
+        for dl2 in (0, 0, 500):
+            for to in (100, 300, INFINITE, DEADLINE):
+                for use in ("W", "PL"):
+                    r = rng_for(seed, "c08s", idx)
+                    o = {"dl": dl2, "stop": KILL_POLICY}
+                    parts = ["N 0", start_tokens(0, {"prog": "missing", "dl": stale, "stop": KILL_POLICY}), start_tokens(0, o),
+                             "E 0 205 X %d" % r.randrange(256)]
+                    polls = []
+                    if use == "W":
+                        parts.append("W 0 %d" % to)
+                    else:
+                        t2 = 100 if to == DEADLINE else to
+                        parts.append("PL %d 1 0 %d" % (t2, EV_EXIT))
+                        polls.append({"to": t2, "src": [(0, EV_EXIT)]})
+                    parts.append("D 0")
+                    cases.append(Case("c08-%d" % idx, " ; ".join(parts), {"handles": {0: o}, "polls": polls, "stale": stale},
+                                      "c08stale/%s/%s/%s/%s" % (stale, dl2, to, use)))
+                    idx += 1
     # reproc_wait timing: timeout x deadline x child exit time, exhaustive small grid
     for dl in (0, 10, 50, 90, 2147483647, 1):
         for to in (0, 20, 60, 200, INFINITE, DEADLINE):
